@@ -41,6 +41,27 @@ def run(rep):
             lines.append(('peq', a, ('expand', a)))
             laws.append(('law-eq', a, ('expand', a)))
             laws.append(('law-transparent', rng.choice(gen.IDS), gen.gen_npat(rng, 1), gen.gen_delta(rng, 1), a))
+    # two applications of the SAME notation body whose maps differ: permuted keys, permuted values, a dropped or a
+    # superfluous entry, a change in a position the body does not use
+    for label, arity, body, _, _ in gen.shipped_notations():
+        for _ in range(3 if quick else 30):
+            vals = [gen.gen_npat(rng, rng.choice((0, 1, 1))) for _ in range(arity)]
+            a = ('inst', body, tuple(enumerate(vals)))
+            variants = []
+            if arity >= 2:
+                ks = list(range(arity)); rng.shuffle(ks)
+                variants.append(('inst', body, tuple((k, vals[k]) for k in ks)))                 # same map, other key order
+                vs = list(vals); i, j = rng.sample(range(arity), 2); vs[i], vs[j] = vs[j], vs[i]
+                variants.append(('inst', body, tuple(enumerate(vs))))                            # values swapped
+            if arity >= 1:
+                variants.append(('inst', body, tuple(enumerate(vals))[:-1]))                     # last entry dropped
+                i = rng.randrange(arity)
+                vs = list(vals); vs[i] = gen.gen_npat(rng, 1)
+                variants.append(('inst', body, tuple(enumerate(vs))))                            # one argument changed
+            variants.append(('inst', body, tuple(enumerate(vals)) + ((arity + 3, gen.gen_npat(rng, 0)),)))   # superfluous key
+            for b in variants:
+                lines.append(('peq', a, b))
+                laws.append(('law-eq', a, b))
     # resolve ('expand', a) / ('simplify', a) through the REAL code
     need = [l[2][1] for l in lines if l[2][0] in ('expand', 'simplify')]
     exp = core.py_h([f'expand {sx.pat_to_s(p)}' for p in need])
